@@ -33,7 +33,7 @@ MANIFEST = {
     'technique': 'bounded-exhaustive enumeration of Range header token strings x file lengths x conditional dates x '
                  'GET/HEAD through the real application, oracle = independent RFC 7233 first-range model + slice self-consistency',
     'text': 'Every Range header made of up to 4 (quick) / 5 (thorough) tokens, every file length 0..12 with a 4-byte '
-            'streaming buffer, files around the 1 MiB buffer, five If-Modified-Since variants and both methods are '
+            'streaming buffer, files around the 1 MiB buffer, twelve If-Modified-Since variants (three HTTP-date spellings) and both methods are '
             'served by the real static_file through the default application; status, Content-Range, Content-Length and '
             'the delivered chunks are compared with the file on disk and the reference range model.',
     'note': 'Bounds: token alphabet of 11, <=5 tokens, lengths 0..12 and around 2^20. Trusted: CPython, email.utils date '
